@@ -35,6 +35,7 @@ import (
 	"github.com/nuts-foundation/nuts-node/vcr/log"
 	"github.com/nuts-foundation/nuts-node/vcr/types"
 	"github.com/nuts-foundation/nuts-node/vcr/verifier"
+	"github.com/nuts-foundation/nuts-node/vdr/resolver"
 	"github.com/piprate/json-gold/ld"
 )
 
@@ -120,6 +121,10 @@ func (n ambassador) handleError(err error) (bool, error) {
 	// Recoverable: context time-outs and cancellations (e.g. storage taking too long)
 	if errors.Is(err, context.Canceled) ||
 		errors.Is(err, context.DeadlineExceeded) {
+		return false, err
+	}
+	// Recoverable: the DID document of the issuer has not arrived yet
+	if errors.Is(err, resolver.ErrNotFound) {
 		return false, err
 	}
 	// Disallowed URLs (configurable) is "basic flow"; not an error, no need to retry
